@@ -123,3 +123,16 @@ claim('C08', 'model_checking',
       '(no spurious wake-ups; a notify without waiter is lost); tasks take no time; TempoClock tempo from a grid.',
       'symbolic co-simulation of the real run loops (interleavings and time as solver variables) + SMT validity',
       'DESIGN.md 2.3, 3/C08')
+
+claim('C05', 'model_checking',
+      'RT: co-simulation of the real SystemClock/TempoClock run loops with ARBITRARY wake-up latency: a routine with '
+      '2/3 symbolic yields, an optional competing routine and an optional child routine (same clock, TempoClock or '
+      'SystemClock) -- z3 proves at every resumption logical time == start + sum of deltas (through the tempo), child '
+      'start == parent\'s current logical time, on every interleaving chosen by the decision tree. NRT: the real '
+      'ClockScheduler with routines on SystemClock, AppClock and TempoClocks created at a non-zero time (with/without '
+      'beats offset): same closed form, executed instants non-decreasing, elapsed time ends at the last instant. '
+      'RT counterexamples are replayed on real threads under load, NRT ones concretely.',
+      _TB + '; co-simulation fakes for threading inside sc3.base.clock; tempo from a grid; routines are played with '
+      'quant 0 (TempoClock.play quantises to the next beat by default, which is documented behaviour).',
+      'symbolic co-simulation (RT) / symbolic execution of the NRT scheduler + SMT validity of the closed form',
+      'DESIGN.md 3/C05')
